@@ -494,8 +494,21 @@ def autotool(selector, undo=False):
     if undo:
         rval = rval.wrap_functions(_untooler)
     else:
-        rval = rval.wrap_functions(_tooler)
-        verify(rval)
+        tooled_so_far = []
+
+        def _tool(fn, captures):
+            fn = _tooler(fn, captures)
+            tooled_so_far.append((fn, captures))
+            return fn
+
+        try:
+            rval = rval.wrap_functions(_tool)
+            verify(rval)
+        except Exception:
+            # A selector that is refused must not leave functions tooled
+            for fn, captures in reversed(tooled_so_far):
+                _untooler(fn, captures)
+            raise
     return rval
 
 
